@@ -53,6 +53,7 @@ P_C09_chain(cseq, cs, r) ==
     /\ KnownU(d) = UNION {KnownU(cseq[i]) : i \in 1..Len(cseq)}
     /\ \A i \in 1..Len(cseq) : \A x \in RecSet(cseq[i]) : \E g \in RecSet(d) : Contained(x, g)
     /\ cs => \A x \in KnownP(cseq[1]) : Get(d.pm, x) = Get(cseq[1].pm, x)
+    /\ cs => \A g \in RecSet(d) : \E i \in 1..Len(cseq) : \E x \in RecSet(cseq[i]) : Contained(x, g)
     /\ cs => \A g \in RecSet(d) :
               LET first == CHOOSE i \in 1..Len(cseq) :
                               /\ \E x \in RecSet(cseq[i]) : Contained(x, g)
